@@ -160,11 +160,10 @@ func (tx *Tx) Get(bucket string, key []byte) (e *Entry, err error) {
 			if idxMode == HintKeyAndRAMIdxMode {
 				path := tx.db.getDataPath(r.H.fileID)
 				df, err := NewDataFile(path, tx.db.opt.SegmentSize, tx.db.opt.RWMode)
-				defer df.rwManager.Close()
-
 				if err != nil {
 					return nil, err
 				}
+				defer df.rwManager.Close()
 
 				item, err := df.ReadAt(int(r.H.dataPos))
 				if err != nil {
